@@ -454,6 +454,12 @@ class RefSim:
                     continue
                 e = self.data["q"].get(cname, {}).get(pop)
                 v = datainterp.series_value(e, self.start) * self.fac(cname, pop) if e else 0.0
+                ind = (self.spec.get("indirect_init") or {}).get(cname)
+                if ind:
+                    # no entry of its own: the databook characteristic (this compartment + one entered compartment) fixes it
+                    xe = self.data["q"][ind["charac"]][pop]
+                    oe = self.data["q"][ind["other"]][pop]
+                    v = max(datainterp.series_value(xe, self.start) * self.fac(ind["charac"], pop) - datainterp.series_value(oe, self.start) * self.fac(ind["other"], pop), 0.0)
                 if cname in self.group and c["kind"] != "junc":
                     par = self.group[cname]
                     p = self.pars[par]
